@@ -1,6 +1,9 @@
-(** C01 — pinned statements (safety part: nothing unmatched, original payload/topic).
-    Exactness/order per subscription and completeness at quiescence are not yet theorems;
-    they are checked on implementation traces by the monitor (see MANIFEST level_note). *)
+(** C01 — pinned statements.  Safety part: nothing unmatched, original payload/topic.
+    Exactness and order: per sweep of a data request and for consecutive sweeps (below, with the
+    cursor invariant and the one-request-per-subscription invariant).  NOT theorems yet: the
+    composition over a whole run per subscription (that between two sweeps nothing but a
+    disconnect/resume rewind changes a request's cursor) and completeness at quiescence; those
+    are checked on implementation traces by the monitor (see MANIFEST level_note). *)
 From Rumqtt Require Import Router.Model Router.LogAll Router.DataLogInv Router.DataLogStep.
 
 (** In every state reachable from [init] by ANY sequence of ops and oracles: every entry stored
@@ -28,3 +31,173 @@ Proof. exact forward_device_data_ok. Qed.
 Theorem c01_step_preserves : forall st orc o st' out,
   DLInv (r_datalog st) -> step_with st orc o = Ok (st', out) -> DLInv (r_datalog st').
 Proof. exact step_with_inv. Qed.
+
+(** ---- exactness / order (per sweep), and the cursor invariant behind it -------------------
+
+    [CursorInv st] (Router/ExactThm.v): every filter log is well-formed ([WF], C13) for some
+    ghost history; every data request the router holds (tracker, waiter list, notifications,
+    saved session) has a cursor that its log has [Issued], at or before the log's end; so has
+    every cursor in an inflight entry; the cursor of a shared-subscription group is a cursor
+    of the log its members' requests read, and all requests of one group read the same log.
+    [CInv] (Router/ExactInv.v) is the inductive form.  [Bounded st]: every filter log has had
+    fewer than 2^62 entries appended ([B62]); it is a hypothesis on the LAST state of a run
+    only (logs only grow), the configuration hypothesis is [max_outgoing_packet_count < 2^62].
+    No hypothesis on ops or oracles. *)
+From Rumqtt Require Import Log.Spec Router.ExactInv Router.ExactStep3 Router.ExactSweep Router.ExactThm Router.ExactExamples.
+From Rumqtt Require Import Router.Model Router.RunDefs.
+
+Theorem c01_cursor_inv_reachable : forall cfg st,
+  cf_max_outgoing cfg < B62 -> reachable cfg st -> Bounded st -> CursorInv st.
+Proof. exact reachable_cursorinv. Qed.
+
+Theorem c01_cinv_init : forall cfg st, cf_max_outgoing cfg < B62 -> init cfg = Ok st -> CInv st.
+Proof. exact init_cinv. Qed.
+
+Theorem c01_cinv_step : forall st orc o st' out,
+  CInv st -> Bounded st -> step_with st orc o = Ok (st', out) ->
+  CInv st' /\ dl_le (r_datalog st) (r_datalog st').
+Proof. exact step_with_cinv. Qed.
+
+(** along any run that ends in a bounded state: the invariant at the end, the logs only grew
+    ([dl_le]: ghost histories extended at the end, issued cursors still issued), and the start
+    was bounded as well *)
+Theorem c01_cinv_run : forall ops st st',
+  CInv st -> run st ops = Ok st' -> Bounded st' ->
+  CInv st' /\ dl_le (r_datalog st) (r_datalog st') /\ Bounded st.
+Proof. exact run_cinv. Qed.
+
+Theorem c01_cinv_cursor_inv : forall st, CInv st -> CursorInv st.
+Proof. exact cinv_cursorinv. Qed.
+
+(** One sweep ([forward_device_data]) of a request that is not served through a shared group,
+    [all] = ghost history of its filter log, [p] = the position of its cursor (the log's base
+    if the cursor is stale): after the retained replays [rs] of a first sweep ([rs = []]
+    otherwise) the link receives exactly the forwards of [firstn (slots - |rs|) (skipn p all)]
+    — same payload, retain, dup, topic (or an empty topic when a broker alias stands for it),
+    the granted QoS — in append order, tagged with offsets p, p+1, ..; nothing else but a
+    possible [Unschedule]; the request continues at offset p + (number forwarded) with an
+    issued, non-stale cursor; FilterCaughtup / PartialRead say whether that is the log's end. *)
+Theorem c01_sweep_exact : forall st id rq st' rq' cs d all,
+  CInv st -> Bounded st ->
+  nget (r_datalog st) (dr_idx rq) = Some d -> WF pubdata_size (d_log d) all ->
+  Issued (d_log d) (dr_cursor rq) -> snd (dr_cursor rq) <= lenN all ->
+  unshared st rq ->
+  forward_device_data st id rq = Ok (st', rq', cs) ->
+  exists o, slab_get (r_obufs st) id = Some o /\
+  let p := pos_of (d_log d) (dr_cursor rq) in
+  let slots := sweep_slots st o rq in
+  r_datalog st' = r_datalog st /\ base_of (d_log d) <= p /\ p <= lenN all /\
+  ((cs = SInflightFull /\ slots = 0 /\ st' = st /\ rq' = rq) \/
+   (cs <> SInflightFull /\ cs <> SkipRequest /\
+    exists rs ns tail,
+      let es := firstn (N.to_nat (slots - lenN rs)) (skipn (N.to_nat p) all) in
+      (forall k, out_of st' k = if k =? o_link o then out_of st k ++ (rs ++ ns) ++ tail else out_of st k) /\
+      Forall is_retained_fwd rs /\ lenN rs <= slots /\ (dr_fwd_retained rq = false -> rs = []) /\
+      fwds_from (dr_qos rq) p es ns /\
+      ((tail = [] /\ cs <> BufferFull) \/ (tail = [NUnschedule] /\ cs = BufferFull)) /\
+      rq' = {| dr_filter := dr_filter rq; dr_idx := dr_idx rq; dr_qos := dr_qos rq;
+               dr_cursor := dr_cursor rq'; dr_read := dr_read rq + (lenN rs + lenN es);
+               dr_fwd_retained := false; dr_group := dr_group rq |} /\
+      Issued (d_log d) (dr_cursor rq') /\ stale (d_log d) (dr_cursor rq') = false /\
+      snd (dr_cursor rq') = p + lenN es /\
+      (cs = FilterCaughtup -> p + lenN es = lenN all \/ slots = 0) /\
+      (cs = PartialRead -> p + lenN es < lenN all) /\
+      (p + lenN es = lenN all -> cs = FilterCaughtup \/ cs = BufferFull))).
+Proof. exact sweep_exact. Qed.
+
+(** Two sweeps of the same request with ANY run in between (publishes to this or other logs,
+    other clients, disconnects ..): the second sweep forwards the segment of the extended
+    history [all ++ xs] that starts where the first one stopped — consecutive, no gap, no
+    overlap, append order — provided the continuation cursor is still within retention;
+    otherwise it restarts at the oldest retained entry, at or after the continuation (the
+    entries in between were evicted unforwarded: the "backlog within retention" proviso). *)
+Theorem c01_two_sweeps : forall st1 id1 rq st1' rq1 cs1 d1 all ops st2 id2 st2' rq2 cs2,
+  CInv st1 ->
+  nget (r_datalog st1) (dr_idx rq) = Some d1 -> WF pubdata_size (d_log d1) all ->
+  Issued (d_log d1) (dr_cursor rq) -> snd (dr_cursor rq) <= lenN all ->
+  dr_group rq = None ->
+  forward_device_data st1 id1 rq = Ok (st1', rq1, cs1) -> cs1 <> SInflightFull ->
+  run st1' ops = Ok st2 -> Bounded st2 ->
+  forward_device_data st2 id2 rq1 = Ok (st2', rq2, cs2) -> cs2 <> SInflightFull ->
+  exists d2 xs o1 o2 nret,
+    nget (r_datalog st2) (dr_idx rq) = Some d2 /\ WF pubdata_size (d_log d2) (all ++ xs) /\
+    slab_get (r_obufs st1) id1 = Some o1 /\ slab_get (r_obufs st2) id2 = Some o2 /\
+    let p1 := pos_of (d_log d1) (dr_cursor rq) in
+    let es1 := firstn (N.to_nat (sweep_slots st1 o1 rq - nret)) (skipn (N.to_nat p1) all) in
+    let p2 := pos_of (d_log d2) (dr_cursor rq1) in
+    let es2 := firstn (N.to_nat (sweep_slots st2 o2 rq1)) (skipn (N.to_nat p2) (all ++ xs)) in
+    sweep_out st1 st1' o1 (dr_qos rq) p1 nret es1 /\
+    sweep_out st2 st2' o2 (dr_qos rq) p2 0 es2 /\
+    (stale (d_log d2) (dr_cursor rq1) = false -> p2 = p1 + lenN es1) /\
+    (stale (d_log d2) (dr_cursor rq1) = true -> p2 = base_of (d_log d2) /\ p1 + lenN es1 <= p2).
+Proof. exact two_sweeps. Qed.
+
+(** the hypotheses are satisfiable by reachable states ([ex_hyps] = those of [c01_two_sweeps]),
+    and what the proviso means: with two retained segments the second sweep forwards m2, m3;
+    with one, the continuation cursor (0,1) went stale, the sweep restarts at base 2 and m2
+    (offset 1) is never forwarded *)
+Theorem c01_example_within_retention :
+  exists st1 rq st1' rq1 cs1 d1 st2 st2' rq2 cs2 d2,
+    ex_hyps 2 st1 rq st1' rq1 cs1 d1 [ex_x1] st2 st2' rq2 cs2 /\
+    nget (r_datalog st2) 0 = Some d2 /\
+    dr_cursor rq = (0, 0) /\ dr_cursor rq1 = (0, 1) /\ stale (d_log d2) (dr_cursor rq1) = false /\
+    ex_obs (out_of st1' 0) = [(Some (0, 0), 1)] /\
+    ex_obs (out_of st2' 0) = [(Some (0, 0), 1); (Some (0, 1), 1100); (Some (1, 2), 1)] /\
+    dr_cursor rq2 = (1, 3) /\ cs2 = FilterCaughtup.
+Proof. exact ex_two_sweeps_within_retention. Qed.
+
+Theorem c01_example_beyond_retention :
+  exists st1 rq st1' rq1 cs1 d1 st2 st2' rq2 cs2 d2,
+    ex_hyps 1 st1 rq st1' rq1 cs1 d1 [ex_x1] st2 st2' rq2 cs2 /\
+    nget (r_datalog st2) 0 = Some d2 /\
+    dr_cursor rq = (0, 0) /\ dr_cursor rq1 = (0, 1) /\ stale (d_log d2) (dr_cursor rq1) = true /\
+    base_of (d_log d2) = 2 /\ end_of (d_log d2) = 3 /\
+    ex_obs (out_of st1' 0) = [(Some (0, 0), 1)] /\
+    ex_obs (out_of st2' 0) = [(Some (0, 0), 1); (Some (1, 2), 1)] /\
+    dr_cursor rq2 = (1, 3) /\ cs2 = FilterCaughtup.
+Proof. exact ex_two_sweeps_stale. Qed.
+
+(** ---- request location (RInv 2): exactly one data request per subscription ------------------
+    [CNT st [] id f] (Router/NoPanicDevInv.v) = number of data requests of connection [id] with
+    subscription filter [f] in its tracker, in the waiter lists of all filter logs and in
+    [notifications].  Hypotheses: a valid configuration and well-typed ops (SUBSCRIBE QoS <= 2,
+    as for C03).  Together with [c01_cursor_inv_reachable] and [c01_sweep_exact]: every
+    subscription of a live connection is served by one request whose cursor walks its filter
+    log entry by entry. *)
+From Rumqtt Require Import Router.Inv Router.NoPanic Router.NoPanicDevBase Router.NoPanicDevInv Router.ExactLoc3.
+From Rumqtt Require Import Router.Model Router.RunDefs.
+
+Theorem c01_request_location : forall cfg st0 ops st,
+  cfg_ok cfg -> init cfg = Ok st0 -> ops_wf ops -> run st0 ops = Ok st ->
+  forall id c f, slab_get (r_conns st) id = Some c ->
+    CNT st [] id f = if set_mem str_eqb f (c_subs c) then 1%nat else 0%nat.
+Proof. exact request_location. Qed.
+
+Theorem c01_request_location_saved : forall cfg st0 ops st,
+  cfg_ok cfg -> init cfg = Ok st0 -> ops_wf ops -> run st0 ops = Ok st ->
+  forall client ss f, In (client, Some ss) (r_graveyard st) ->
+    cnt f (tr_reqs (ss_tracker ss)) = if set_mem str_eqb f (ss_subs ss) then 1%nat else 0%nat.
+Proof. exact request_location_saved. Qed.
+
+(** "after that subscription took effect": SUBSCRIBE creates the request with the cursor
+    [next_native_offset] returns, the current END of the filter's log ([all] = its history then).
+    Swept in any later state [st2] whose logs extend those of the subscribe state
+    ([dl_le], e.g. by [c01_cinv_run] along any run): within retention the sweep forwards the
+    first [slots] entries of [xs], the messages appended AFTER the subscription — nothing
+    accepted before it; beyond retention it restarts at the base, which is at or after [|all|]. *)
+Theorem c01_sweep_after_subscribe : forall st f st0 idx cu st2 id rq st2' rq2 cs,
+  CInv st -> next_native_offset st f = Ok (st0, idx, cu) ->
+  CInv st2 -> Bounded st2 -> dl_le (r_datalog st0) (r_datalog st2) ->
+  dr_idx rq = idx -> dr_cursor rq = cu -> dr_group rq = None ->
+  forward_device_data st2 id rq = Ok (st2', rq2, cs) -> cs <> SInflightFull ->
+  exists d0 all d2 xs o nret,
+    nget (r_datalog st0) idx = Some d0 /\ WF pubdata_size (d_log d0) all /\
+    nget (r_datalog st2) idx = Some d2 /\ WF pubdata_size (d_log d2) (all ++ xs) /\
+    slab_get (r_obufs st2) id = Some o /\
+    (stale (d_log d2) cu = false ->
+       sweep_out st2 st2' o (dr_qos rq) (lenN all) nret (firstn (N.to_nat (sweep_slots st2 o rq - nret)) xs)) /\
+    (stale (d_log d2) cu = true ->
+       lenN all <= base_of (d_log d2) /\
+       sweep_out st2 st2' o (dr_qos rq) (base_of (d_log d2)) nret
+         (firstn (N.to_nat (sweep_slots st2 o rq - nret)) (skipn (N.to_nat (base_of (d_log d2))) (all ++ xs)))).
+Proof. exact sweep_after_subscribe. Qed.
